@@ -1,13 +1,17 @@
 #!/bin/bash
 # usage: run.sh <property-id|all> <quick|thorough> [--only RULE]
 # Analyses /repo's current working tree (never a snapshot), writes evidence/<id>.json.
+# VERIF_REPO / VERIF_OUT redirect the analysed tree / the output directory (used only by the
+# mutation self-test and by tools/mutant.sh on scratch copies).
 cd "$(dirname "$0")"
+HERE="$(pwd)"
 . ./env.sh
 PROP="$1"; TIER="${2:-quick}"; shift; shift
 REPO="${VERIF_REPO:-/repo}"
+OUT="${VERIF_OUT:-$HERE}"
 if [ ! -x bin/grolcheck ] || [ -n "$(find checker -name '*.go' -newer bin/grolcheck 2>/dev/null | head -1)" ]; then
   ./setup.sh >/dev/null || { echo "UNDECIDED property=$PROP checker build failed"; exit 2; }
 fi
 ONLY=""
 if [ "$1" = "--only" ]; then ONLY="$2"; fi
-exec bin/grolcheck -prop "$PROP" -tier "$TIER" -repo "$REPO" -verif "$(pwd)" -only "$ONLY"
+exec bin/grolcheck -prop "$PROP" -tier "$TIER" -repo "$REPO" -verif "$OUT" -known "$HERE/known_findings.json" -only "$ONLY"
